@@ -1198,6 +1198,18 @@ func (m *Machine) rangeIter(fr *frame, x Value) Value {
 		switch {
 		case n <= 1 || m.mapOrder == 2:
 			it.order = rem
+		case m.mapOrder == 3:
+			// one decision per path: every range runs forward, or every range runs in reverse
+			if m.mapFlip == 0 {
+				m.mapFlip = 1 + m.choose("maporder", 2, nil)
+			}
+			if m.mapFlip == 2 {
+				for i := n - 1; i >= 0; i-- {
+					it.order = append(it.order, rem[i])
+				}
+			} else {
+				it.order = rem
+			}
 		case m.mapOrder == 1:
 			if m.choose("maporder", 2, nil) == 1 {
 				for i := n - 1; i >= 0; i-- {
